@@ -21,6 +21,7 @@ RULE = (
     "prefixed, mixed-case, underscore names) x values str / int / float / bool / None; 44 known answers of the hash "
     "position function (RFC 1321 vectors and others, hard-coded); golden ids. distinct_nontrivial = distinct (program, "
     "input) whose routed return has >= 2 positive-weight groups."
+    ' Added later: exotic splitter values (str / int subclasses with their own __str__, arbitrary objects, Decimal, Fraction, bytes, containers), annotated headers, a salt sweep over the whole literal pool, repeated splitters and repeated labels, golden ids on the boundaries of the 1:1:2 statement always evaluated.'
 )
 ASSUMPTIONS = [
     "'alphabetical order of field name' is Python sorted() on the names (code-point order)",
